@@ -34,13 +34,13 @@ BeginLzma == \E lvl \in 0..3 : \E usize \in 1..ChunkUncompMax : \E csize \in {1,
                 /\ LzmaChunkBegin(128 + 32 * lvl + (usize - 1) \div 65536, usize, csize, pb, TRUE)
                 /\ agg' = Agg0
 SymLit == \E b \in Alphabet : InLzmaChunk(1) /\ Lit(b) /\ UNCHANGED l2vars
-             /\ agg' = [agg EXCEPT !.lit = @ + 1, !.outlen = @ + 1, !.maxlen = Max(@, 1)]
+             /\ agg' = [agg EXCEPT !.lit = @ + 1, !.outlen = @ + 1]
 SymMatch == \E d0 \in 0..(dictSize - 1) : \E n \in LenMin..LenMax :
              InLzmaChunk(n) /\ Match(d0, n) /\ UNCHANGED l2vars /\ agg' = AddCopy(agg, "match", d0, n)
 SymRep == \E i \in 0..3 : \E n \in LenMin..LenMax :
              InLzmaChunk(n) /\ Rep(i, n) /\ UNCHANGED l2vars /\ agg' = AddCopy(agg, "rep", reps[i + 1], n)
 SymShortRep == InLzmaChunk(1) /\ ShortRep /\ UNCHANGED l2vars
-             /\ agg' = [AddCopy(agg, "srep", reps[1], 1) EXCEPT !.maxlen = agg.maxlen]
+             /\ agg' = [agg EXCEPT !.srep = @ + 1, !.outlen = @ + 1]      \* the tokeniser does not count short reps as copies
 EndLzma == /\ LzmaChunkEndBytes
            /\ agg' = Agg0
 Unc == \E ctl \in {1, 2} : \E bs \in UNION {[1..k -> Alphabet] : k \in 1..2} :
